@@ -15,11 +15,11 @@ import (
 // settle so the model is deterministic (concurrency is inside the library).
 
 type c7Surv struct {
-	n      int
-	tag    string
-	id     uint32
-	start  time.Duration
-	T      time.Duration
+	n     int
+	tag   string
+	id    uint32
+	start time.Duration
+	T     time.Duration
 }
 
 type c7Ctx struct {
